@@ -446,15 +446,22 @@ func runC10(c *eng.Ctx) {
 	})
 
 	c.Rule("ORDER", "index{memory read < snapshot}", func() {
+		// the dictionary store picks its snapshot through getSnapshot(), or reads s.snapshot in place (under the read lock)
+		kvSnap := func(p *eng.Prog, in ssa.Instruction) bool {
+			if eng.CallTo(kvsT + ".getSnapshot")(p, in) {
+				return true
+			}
+			return eng.LoadField(kvsT+".snapshot")(p, in) && in.Parent() != nil && p.FuncKey(in.Parent()) != kvsT+".getSnapshot"
+		}
 		memoryBeforeSnapshot(c, []orderedReader{
 			{"index.invertedIndex.getSeriesIDs", "index.invertedIndex", invokeOn(".family", "GetSnapshot"), true},
 			{"index.invertedIndex.findSeriesIDsByKeys", "index.invertedIndex", invokeOn(".family", "GetSnapshot"), true},
 			{"index.forwardIndex.findSeriesIDsForTag", "index.forwardIndex", invokeOn(".family", "GetSnapshot"), true},
 			{"index.forwardIndex.GetGroupingContext", "index.forwardIndex", invokeOn(".family", "GetSnapshot"), true},
-			{kvsT + ".GetValues", kvsT, eng.CallTo(kvsT + ".getSnapshot"), true},
-			{kvsT + ".FindValuesByRegexp", kvsT, eng.CallTo(kvsT + ".getSnapshot"), true},
-			{kvsT + ".findValuesByLike", kvsT, eng.CallTo(kvsT + ".getSnapshot"), true},
-			{kvsT + ".CollectKVs", kvsT, eng.CallTo(kvsT + ".getSnapshot"), true},
+			{kvsT + ".GetValues", kvsT, kvSnap, true},
+			{kvsT + ".FindValuesByRegexp", kvsT, kvSnap, true},
+			{kvsT + ".findValuesByLike", kvsT, kvSnap, true},
+			{kvsT + ".CollectKVs", kvsT, kvSnap, true},
 		})
 		c.Observe("indexKVStore.Suggest (metadata suggestions, not a tag filter) still picks the snapshot before reading memory — outside C10, noticed")
 	})
